@@ -1,4 +1,4 @@
-import NimaVerif.Lemmas.AssignThrough
+import NimaVerif.Lemmas.AssignHistory
 import NimaVerif.Lemmas.NodeEq
 import NimaVerif.Model.ResolveSpec
 /-!
@@ -539,5 +539,118 @@ theorem c11_partial_through_chain (d : Doc) (p k : Text) (v : Node) (rid : Nat) 
   ⟨defines_extend _ _ _ _ hdef,
    (set_through_reference d p k v rid nm ne name bf af bid hnt hsp hf hr hb (envOK_append_left hok)
      hname (inheritFree_append_left hinh) (idsNodup_append_left hids) hdef).1⟩
+
+/-! ## 5. Histories of edits through references -/
+
+/-- one edit through a reference: the path and its key, the binding addressed (which holds the
+    reference `name`), the defining binding `bid`, the new value -/
+structure RefEdit where
+  p : Text
+  k : Text
+  rid : Nat
+  nm : Text
+  ne : Bool
+  name : Text
+  bf : Payload
+  af : Payload
+  bid : Nat
+  v : Node
+
+def RefEdit.op (e : RefEdit) : Op := .set e.p (.one e.v)
+
+/-- the hypotheses of `set_through_reference` for the edit `e` in the document `d`, and the new
+    value is not itself a reference -/
+structure RefEdit.Ok (d : Doc) (e : RefEdit) : Prop where
+  hsp : splitScopeNpath e.p = .ok none
+  hf : formatNPath currentAnchor e.p = .ok [e.k]
+  hr : findAttrpathRoot d.target.setValues e.k = none
+  hb : findBinding d.target.setValues e.k = some (.bind e.rid e.nm e.ne (.ident e.name) e.bf e.af)
+  hname : nixName e.name = e.name
+  hinh : inheritFree (chainEnv d d.target true) e.name = true
+  hdef : Defines (chainEnv d d.target true) e.name e.bid
+  hv : e.v.isIdent = false
+
+/-- the document-wide side conditions -/
+structure DocOk (d : Doc) : Prop where
+  hnt : d.noTarget = none
+  hok : envOK (chainEnv d d.target true) = true
+  hids : idsNodup (chainEnv d d.target true) = true
+
+theorem chainEnv_after_write (j : Nat) (w : Node) (d : Doc) :
+    chainEnv (d.updBind j w) (d.updBind j w).target true = updEnv j w (chainEnv d d.target true) := by
+  rw [Doc.updBind_target, chainEnv_updBind]
+
+/-- the side conditions survive a write of a non-reference -/
+theorem DocOk.after_write {d : Doc} (h : DocOk d) (j : Nat) (w : Node) (hw : w.isIdent = false) :
+    DocOk (d.updBind j w) :=
+  ⟨h.hnt, by rw [chainEnv_after_write]; exact envOK_updEnv j w hw _ h.hok,
+   by rw [chainEnv_after_write]; exact idsNodup_updEnv j w _ h.hids⟩
+
+/-- **The designation is stable.** After a write of a non-reference to the end of some chain, every
+    other edit through a reference still has its hypotheses — in particular the same name still
+    designates the same defining binding, and the reference is still in place. -/
+theorem RefEdit.Ok.after_write {d : Doc} {e : RefEdit} (he : e.Ok d) (j : Nat) (w : Node)
+    (hw : w.isIdent = false) (hnr : NotRef (chainEnv d d.target true) j) (hne : e.rid ≠ j) :
+    e.Ok (d.updBind j w) where
+  hsp := he.hsp
+  hf := he.hf
+  hr := by rw [Doc.updBind_target, setValues_updBind, findAttrpathRoot_updBindL, he.hr]; rfl
+  hb := by
+    rw [Doc.updBind_target, setValues_updBind, findBinding_updBindL, he.hb, Option.map_some,
+      write_keeps_reference j e.rid e.nm e.ne e.name e.bf e.af w hne]
+  hname := he.hname
+  hinh := by rw [chainEnv_after_write]; exact inheritFree_updEnv j w hw _ _ he.hinh
+  hdef := by rw [chainEnv_after_write]; exact he.hdef.updEnv j w hw hnr
+  hv := he.hv
+
+/-- **History.** A sequence of edits through references (any references, any chains, any number of
+    let layers) whose hypotheses hold in the INITIAL document, none of which addresses a binding that
+    is the defining binding of another: the whole history is the sequence of writes to the defining
+    bindings determined up front — every edit keeps hitting the binding Nix designates, nothing else
+    is ever written, every reference stays in place. By induction over the list of operations. -/
+theorem history_through_references (es : List RefEdit) (d : Doc) (hd : DocOk d)
+    (hes : ∀ e ∈ es, e.Ok d) (hdisj : ∀ e ∈ es, ∀ e' ∈ es, e.rid ≠ e'.bid) :
+    run (es.map RefEdit.op) d = es.foldl (fun d e => d.updBind e.bid e.v) d := by
+  induction es generalizing d with
+  | nil => rfl
+  | cons e es ih =>
+    have he := hes e (by simp)
+    have hstep : (e.op.apply d) = (.ok (), d.updBind e.bid e.v) :=
+      (set_through_reference d e.p e.k e.v e.rid e.nm e.ne e.name e.bf e.af e.bid hd.hnt he.hsp he.hf
+        he.hr he.hb hd.hok he.hname he.hinh hd.hids he.hdef).1
+    have hnr : NotRef (chainEnv d d.target true) e.bid :=
+      NotRef.of_defines (idsNodup_iff.1 hd.hids) he.hdef
+    simp only [List.map_cons, run, hstep, List.foldl_cons]
+    exact ih (d.updBind e.bid e.v) (hd.after_write e.bid e.v he.hv)
+      (fun e' he' => (hes e' (by simp [he'])).after_write e.bid e.v he.hv hnr
+        (hdisj e' (by simp [he']) e (by simp)))
+      (fun a ha b hb => hdisj a (by simp [ha]) b (by simp [hb]))
+
+theorem foldl_write_wrappers (es : List RefEdit) (d : Doc) :
+    (es.foldl (fun d e => d.updBind e.bid e.v) d).wrappers = d.wrappers ∧
+    (es.foldl (fun d e => d.updBind e.bid e.v) d).next = d.next := by
+  induction es generalizing d with
+  | nil => exact ⟨rfl, rfl⟩
+  | cons e es ih => simp only [List.foldl_cons]; exact ih (d.updBind e.bid e.v)
+
+theorem foldl_write_others (b : Nat) (es : List RefEdit) (hb : ∀ e ∈ es, e.bid = b) (d : Doc) :
+    others b (es.foldl (fun d e => d.updBind e.bid e.v) d) = others b d := by
+  induction es generalizing d with
+  | nil => rfl
+  | cons e es ih =>
+    simp only [List.foldl_cons]
+    rw [ih (fun e' he' => hb e' (by simp [he'])), hb e (by simp)]
+    exact Doc.updBind_absorb b e.v hole d
+
+/-- Hence, over the whole history: wrappers and the identity counter are untouched, and when all the
+    edits go through references to the same defining binding `b` (the same reference edited again and
+    again, or several references that end at `b`), everything but the value of `b` is as it was. -/
+theorem history_frame (es : List RefEdit) (d : Doc) (hd : DocOk d)
+    (hes : ∀ e ∈ es, e.Ok d) (hdisj : ∀ e ∈ es, ∀ e' ∈ es, e.rid ≠ e'.bid) :
+    (run (es.map RefEdit.op) d).wrappers = d.wrappers ∧ (run (es.map RefEdit.op) d).next = d.next ∧
+    ∀ b, (∀ e ∈ es, e.bid = b) → others b (run (es.map RefEdit.op) d) = others b d := by
+  rw [history_through_references es d hd hes hdisj]
+  exact ⟨(foldl_write_wrappers es d).1, (foldl_write_wrappers es d).2,
+    fun b hb => foldl_write_others b es hb d⟩
 
 end Nima.C11
